@@ -95,6 +95,25 @@ def c2lean(n, names, want):
     if k == "CharacterLiteral":
         s = f"({n['value']}:Int)"
         return s if want == "int" else as_bool(s)
+
+    def strlit(x):
+        while x.get("kind") in ("ImplicitCastExpr", "ParenExpr", "CStyleCastExpr"):
+            x = x["inner"][0]
+        return json.loads(x["value"]) if x.get("kind") == "StringLiteral" else None
+    if k == "UnaryExprOrTypeTraitExpr" and n.get("name") == "sizeof" and n.get("inner"):
+        lit = strlit(n["inner"][0])
+        if lit is None or any(ord(c) > 126 for c in lit):
+            raise Untranslatable("sizeof")
+        s = f"({len(lit) + 1}:Int)"
+        return s if want == "int" else as_bool(s)
+    if k == "CallExpr" and len(n.get("inner", [])) == 2:
+        callee = n["inner"][0]
+        while callee.get("kind") in ("ImplicitCastExpr", "ParenExpr"):
+            callee = callee["inner"][0]
+        lit = strlit(n["inner"][1])
+        if callee.get("kind") == "DeclRefExpr" and callee["referencedDecl"]["name"] == "strlen" and lit is not None and "\x00" not in lit:
+            s = f"({len(lit)}:Int)"
+            return s if want == "int" else as_bool(s)
     try:
         p = path_of(n) if k in ("DeclRefExpr", "MemberExpr", "ArraySubscriptExpr", "CallExpr") or (k == "UnaryOperator" and n.get("opcode") == "*") else None
     except Untranslatable:
@@ -535,6 +554,28 @@ def run(repo, outdir):
         else:
             L.append(f"def {lname} : Option ({ty}) := none")
             facts[lname] = {"status": "untied", "why": why}
+    L.append("")
+
+    # C07: the size dynamicconfigsrv allocates for a "host:port" text, as a function of strlen(host)
+    term, why = None, ""
+    try:
+        ast = clang_fn(repo, "radsecproxy.c", "dynamicconfigsrv")
+        for v in _walk(ast, "VarDecl", []) if ast else []:
+            if v.get("name") == "hostport":
+                calls = [c for c in _walk(v, "CallExpr", []) if path_of(c["inner"][0]) == "malloc"]
+                if len(calls) == 1:
+                    term = c2lean(calls[0]["inner"][1], {"strlen(srv[i].host)": "hostlen"}, "int")
+    except Untranslatable as e:
+        why = str(e)
+    except Exception as e:
+        why = repr(e)
+    if term:
+        L.append("/-- radsecproxy.c:dynamicconfigsrv: malloc for the host:port text -/")
+        L.append(f"def dynsrvHostportAlloc : Option (Int → Int) := some (fun hostlen => {term})")
+        facts["dynsrvHostportAlloc"] = {"status": "ok", "value": term}
+    else:
+        L.append("def dynsrvHostportAlloc : Option (Int → Int) := none")
+        facts["dynsrvHostportAlloc"] = {"status": "untied", "why": why}
     L.append("")
 
     # G5 textual anchors: every pthread_mutex_lock call-site expression (C17), regcomp flags of addrealm (C08)
